@@ -199,3 +199,10 @@ func (p *PipeEnd) Close() error {
 	}
 	return nil
 }
+
+// net.Conn methods of a pipe end (deadlines are not modelled).
+func (p *PipeEnd) LocalAddr() net.Addr                { return Addr{} }
+func (p *PipeEnd) RemoteAddr() net.Addr               { return &net.TCPAddr{IP: net.IP{1, 2, 3, 4}, Port: 5} }
+func (p *PipeEnd) SetDeadline(t time.Time) error      { return nil }
+func (p *PipeEnd) SetReadDeadline(t time.Time) error  { return nil }
+func (p *PipeEnd) SetWriteDeadline(t time.Time) error { return nil }
